@@ -59,7 +59,8 @@ def plan(tier):
              ("m", (("a", ("l", ("p", "q", "r", "s"))), ("b", 1)))]
     voc = paths.vocab("c01-quick") + [("idx", -2), ("idx", 2)] + [
         ("slice", a, b) for a, b in ((0, 1), (0, 2), (1, 2), (1, 3), (0, 3),
-                                     (1, 1), (-2, -1), (-3, -1))]
+                                     (1, 1), (-2, -1), (-3, -1), (0, -1),
+                                     (-2, 3), (1, -1), (-5, 2), (1, 9))]
     PLIST = [((s,), paths.render((s,), "/")) for s in voc]
     for p in paths.upto(paths.vocab("c01-quick"), 2):
         if len(p) == 2:
